@@ -1,5 +1,5 @@
 \* C04 behaviour generation: 2 nodes, 2 ids, clock 0..6, retention 2 s, up to 8 CAS, restarts and
-\* garbage.
+\* garbage, up to 2 KV.Delete calls (ObsoleteEntriesTimeout 2 s).
 CONSTANTS
   N = 2
   NI = 2
@@ -15,6 +15,11 @@ CONSTANTS
   AllowGarbage = TRUE
   AllowPartition = FALSE
   AllowJunkPP = FALSE
+  GateNodes = {}
+  InboxCap = 1
+  VersionTest = TRUE
+  MaxDel = 2
+  ObsoleteTimeout = 2
   ConsumeNet = FALSE
   Ideal = TRUE
   Ghost = TRUE
@@ -24,6 +29,6 @@ CONSTANTS
   QRounds = 2
 INIT Init
 NEXT SimNext
-INVARIANTS TypeOK TombstonesInvisible NoInventedContent WatcherNeverStale QuiescentOK EmitDone
-PROPERTIES TombstonesForwarded NoResurrection GCOnlyExpired NoExpiredTombstoneStored OnlyChangesForwarded
+INVARIANTS TypeOK TombstonesInvisible NoInventedContent WatcherNeverStale PrefixWatcherNeverStale QuiescentOK EmitDone
+PROPERTIES TombstonesForwarded NoResurrection GCOnlyExpired NoExpiredTombstoneStored OnlyChangesForwarded DeletedStaysDeleted RemovedOnlyWhenObsolete DeletedNotRevived
 CHECK_DEADLOCK FALSE
